@@ -435,6 +435,7 @@ type Clause struct {
 	E     Expr
 	Props []string
 	Text  string
+	Pkg   string
 }
 
 type LoopSpec struct {
@@ -473,6 +474,8 @@ type FuncSpec struct {
 	Ghost    []GhostBlock
 	Notes    []string
 	Havoc    bool // contract-less: havoc everything
+	Uses     []string // axioms of other packages visible here: "pkg.label"
+	Implements string // interface method whose contract this function must satisfy (refinement by identity)
 }
 
 type Pred struct {
@@ -509,7 +512,7 @@ var specKeywords = map[string]bool{
 	"decreases": true, "pred": true, "props": true, "safety": true, "inline": true,
 	"trusted": true, "pure": true, "protected": true, "moninv": true, "ghost": true,
 	"axiom": true, "note": true, "params": true, "results": true, "at": true, "havoc": true,
-	"unroll": true,
+	"unroll": true, "implements": true, "uses": true,
 }
 
 func loadSpecs(files []string) (*Specs, error) {
@@ -589,6 +592,7 @@ func (sp *Specs) loadFile(path string) error {
 		}
 	}
 	var cur *FuncSpec
+	var fileUses []string
 	var curLoop *LoopSpec
 	var curMon *Monitor
 	fail := func(d rawDirective, f string, a ...interface{}) error {
@@ -639,7 +643,7 @@ func (sp *Specs) loadFile(path string) error {
 			if _, dup := sp.Funcs[key]; dup {
 				return fail(d, "duplicate spec for %s", key)
 			}
-			cur = &FuncSpec{Key: key, Pkg: pkg, File: path, Kind: d.kw, Loops: map[int]*LoopSpec{}}
+			cur = &FuncSpec{Key: key, Pkg: pkg, File: path, Kind: d.kw, Loops: map[int]*LoopSpec{}, Uses: fileUses}
 			if d.kw != "func" {
 				cur.Trusted = true
 			}
@@ -729,6 +733,10 @@ func (sp *Specs) loadFile(path string) error {
 			cur.Pure = true
 		case "havoc":
 			cur.Havoc = true
+		case "implements":
+			cur.Implements = stripComment(d.text)
+		case "uses":
+			fileUses = append(fileUses, strings.Fields(strings.ReplaceAll(stripComment(d.text), ",", " "))...)
 		case "note":
 			if cur != nil {
 				cur.Notes = append(cur.Notes, d.text)
@@ -814,6 +822,7 @@ func (sp *Specs) loadFile(path string) error {
 			if err != nil {
 				return err
 			}
+			c.Pkg = pkg
 			sp.Axioms = append(sp.Axioms, c)
 		case "at":
 			// at unlock#2 ghost { a = b; c = d }
